@@ -60,8 +60,10 @@ func init() {
 	c05r.ExtraEvery = func(s *kv.Sim, i int) {
 		if i%15 == 14 {
 			dumpSweep(s)
+			s.JudgeQueries(0, (i/15)%2) // a query is an observer too: no row for a key without a body
 		}
 	}
+	c05.ExtraEvery = func(s *kv.Sim, vi int) { s.JudgeQueries(0, (vi/16)%2) }
 	sup.Register(&sup.Check{
 		Prop: "C05", Level: "exploration",
 		Rule:        "engine A with every observer judged after every step: GetRaw/Exists/GetWithXattrs/GetXattrs read-back, the mutation's live feed event, a Dump backfill of the touched key, and the behaviour of the following insert-style write; delete-path x resurrect-path x follow-up sequences enumerated from the setup/variant/follow-up catalogues plus random delete/resurrect-heavy histories with PurgeTombstones; a cell is a distinct (op variant, pre-state class, outcome, bucket type)",
@@ -119,6 +121,9 @@ func init() {
 			randomPart("random", 800, 12000, c07r),
 			badJSONPart("badjson", 200, 3000, c07bad),
 			randomPart("oversize", 120, 1800, c07small),
+			{Name: "forced-windows", Timeout: 60 * time.Second, Count: func(t string) int { return tierN(t, 2, 20) }, Run: func(c *sup.Ctx) {
+				windowScenario(c, rng.New(c.Seed, rng.HashString("C07win"), uint64(c.Local)), []string{"C02", "C03", "C18"})
+			}},
 		},
 		Floor: cellsFloor(300),
 	})
